@@ -2,6 +2,7 @@ package polling
 
 import (
 	"bytes"
+	"errors"
 	"fmt"
 	"io"
 	"net/http"
@@ -149,6 +150,10 @@ func (t *ServerTransport) handleDataRequest(w http.ResponseWriter, r *http.Reque
 		r.Body.Close()
 		return
 	}
+	if t.maxHTTPBufferSize > 0 {
+		// The size of a chunked body is not declared. Never read more than the limit.
+		r.Body = http.MaxBytesReader(w, r.Body, t.maxHTTPBufferSize)
+	}
 
 	var (
 		packets []*parser.Packet
@@ -160,14 +165,14 @@ func (t *ServerTransport) handleDataRequest(w http.ResponseWriter, r *http.Reque
 	if jsonp == "" {
 		packets, err = parser.DecodePayloads(r.Body)
 		if err != nil {
-			w.WriteHeader(http.StatusBadRequest)
+			w.WriteHeader(bodyErrorStatus(err))
 			t.close(err)
 			return
 		}
 	} else {
 		err = r.ParseForm()
 		if err != nil {
-			w.WriteHeader(http.StatusBadRequest)
+			w.WriteHeader(bodyErrorStatus(err))
 			t.close(err)
 			return
 		}
@@ -195,6 +200,16 @@ func (t *ServerTransport) handleDataRequest(w http.ResponseWriter, r *http.Reque
 	wh.Set("Content-Length", "2")
 	w.WriteHeader(200)
 	w.Write(ok)
+}
+
+// bodyErrorStatus returns 413 if reading the request body failed
+// because maxHTTPBufferSize was exceeded, and 400 otherwise.
+func bodyErrorStatus(err error) int {
+	var tooLarge *http.MaxBytesError
+	if errors.As(err, &tooLarge) {
+		return http.StatusRequestEntityTooLarge
+	}
+	return http.StatusBadRequest
 }
 
 func (t *ServerTransport) Discard() {
